@@ -42,6 +42,8 @@ func rootsFor(prop, tier string) []Root {
 		add("VH_C10_Float", 0)
 		add("VH_C10_Float", 1)
 		rs = append(rs, Root{Prop: prop, Harness: "VH_C10_RowSign", Params: []int{3}, MaxDecs: 3000})
+		// a 70-column table: signedness beyond the 64th column (flags and values of columns 63, 64, 69 free)
+		rs = append(rs, Root{Prop: prop, Harness: "VH_C10_RowSign", Params: []int{70}, MaxDecs: 6000, MaxSteps: 30000000})
 		if thorough {
 			rs = append(rs, Root{Prop: prop, Harness: "VH_C10_RowSign", Params: []int{4}, MaxDecs: 4000})
 		}
@@ -142,9 +144,7 @@ func rootsFor(prop, tier string) []Root {
 			if thorough || f == 0 || f == 2 {
 				rs = append(rs, Root{Prop: prop, Harness: "VH_C04_Exit", Params: []int{2, f}, MaxDecs: 2000})
 			}
-			if thorough && f != 7 {
-				rs = append(rs, Root{Prop: prop, Harness: "VH_C04_Exit", Params: []int{3, f}, MaxDecs: 3000})
-			}
+			// (three-unit histories were tried for every fault kind: the nine roots did not finish within 2.5 h on 8 workers)
 		}
 		// Stream-level half: write-back of the position, the next attempt's dump request, exactly-once over attempts
 		rs = append(rs, Root{Prop: prop, Harness: "VH_C07_Attempts", Params: []int{1, 0}, MaxDecs: 6000, MaxSteps: 30000000})
@@ -155,6 +155,8 @@ func rootsFor(prop, tier string) []Root {
 		}
 	case "C03":
 		add("VH_C03_RealOffsets")
+		add("VH_C03_RealRotate", 0)
+		add("VH_C03_RealRotate", 1)
 		rs = append(rs, Root{Prop: prop, Harness: "VH_C03_Resume", Params: []int{1}, MaxDecs: 2000})
 		rs = append(rs, Root{Prop: prop, Harness: "VH_C03_Resume", Params: []int{2}, MaxDecs: 2000})
 		if thorough {
@@ -207,6 +209,8 @@ func rootsFor(prop, tier string) []Root {
 		for _, nl := range []int{0, 1, 10} {
 			rs = append(rs, Root{Prop: prop, Harness: "VH_C07_Handshake", Params: []int{nl}, MaxDecs: 4000})
 		}
+		// the position a later attempt resumes from names exactly the file rotated to (CRC32 events)
+		add("VH_C03_RealRotate", 1)
 		// the master refuses the checksum announcement (ERR packet, any code): no dump request follows
 		rs = append(rs, Root{Prop: prop, Harness: "VH_C05_Stream", Params: []int{6, 1, 0, 0}, MaxDecs: 4000, MaxSteps: 30000000})
 		rs = append(rs, Root{Prop: prop, Harness: "VH_C07_Attempts", Params: []int{1, 0}, MaxDecs: 6000, MaxSteps: 30000000})
@@ -322,6 +326,8 @@ func rootsFor(prop, tier string) []Root {
 		rs = append(rs, Root{Prop: prop, Harness: "VH_C14_LongString", Params: []int{70000, 3, 1}, MaxDecs: 40000, MaxSteps: 2000000000})
 		rs = append(rs, Root{Prop: prop, Harness: "VH_C14_LongString", Params: []int{70000, 4, 1}, MaxDecs: 40000, MaxSteps: 2000000000})
 		rs = append(rs, Root{Prop: prop, Harness: "VH_C14_LongString", Params: []int{300, 3, 0}, MaxDecs: 40000, MaxSteps: 200000000})
+		// small format with offsets beyond 32767 (a 40,000-byte string in front of two out-of-line values)
+		rs = append(rs, Root{Prop: prop, Harness: "VH_C14_LongString", Params: []int{40000, 3, 0}, MaxDecs: 40000, MaxSteps: 2000000000})
 		if thorough {
 			for _, n := range []int{255, 384, 16383, 16384} {
 				rs = append(rs, Root{Prop: prop, Harness: "VH_C14_LongString", Params: []int{n, 2, 0}, MaxDecs: 40000, MaxSteps: 400000000})
@@ -496,7 +502,7 @@ func rootsFor(prop, tier string) []Root {
 			}
 		}
 	case "C20":
-		for sh := 0; sh < 7; sh++ {
+		for sh := 0; sh < 8; sh++ {
 			rs = append(rs, Root{Prop: prop, Harness: "VH_C20_Marshal", Params: []int{sh}, MaxDecs: 4000})
 		}
 		add("VH_C20_Names")
